@@ -104,7 +104,10 @@ def build_harness(dev=False):
     cmd = ["cargo", "build", "--offline"] + ([] if dev else ["--release"])
     p = sh(cmd, cwd=HARNESS, timeout=3000, check=False)
     if p.returncode != 0:
-        raise BuildError("harness build failed:\n" + p.stdout[-6000:])
+        lines = p.stdout.split("\n")
+        errs = [i for i, l in enumerate(lines) if l.startswith("error")]
+        msg = "\n".join(lines[errs[0]:errs[0] + 40]) if errs else p.stdout[-3000:]
+        raise BuildError("harness build failed:\n" + msg)
 
 
 def regen():
